@@ -7,8 +7,9 @@
    (Gen/DelegGen.v).  `lc` is the verdict function of the Labels validators: every statement holds for
    every validator (the same one is applied when a Labels object is built and when it is decoded). *)
 From Coq Require Import List ZArith NArith Bool String Permutation.
-From FIM Require Import Base.Str Base.Corr Gen.DelegGen Model.Deleg12 Model.Pools12 Model.Pools12H Model.Deleg12H
-     Proofs.Deleg12Enc Proofs.Deleg12Pools Proofs.Deleg12Regroup Proofs.Deleg12Annotate Proofs.Deleg12Main Proofs.Deleg12Hist Proofs.Deleg12DHist.
+From FIM Require Import Base.Str Base.Corr Base.Json Gen.DelegGen Model.Deleg12 Model.Pools12 Model.Pools12H Model.Deleg12H
+     Model.Deleg12T
+     Proofs.Deleg12Enc Proofs.Deleg12Pools Proofs.Deleg12Regroup Proofs.Deleg12Annotate Proofs.Deleg12Main Proofs.Deleg12Hist Proofs.Deleg12DHist Proofs.Deleg12Text.
 Import ListNotations.
 
 (* ------------------------------------------------------------------------------------------------ *)
@@ -311,11 +312,88 @@ Theorem C12_container_queries_change_nothing : forall lc st o, dop_readonly o = 
 Proof. exact readonly_changes_nothing. Qed.
 Print Assumptions C12_container_queries_change_nothing.
 
+(* refused operations, classified against the property text: a refused add_delegations call leaves a PREFIX of its
+   arguments in the container (all valid, ids distinct: C12_container_state_invariant) -- residue, but no violation of
+   "duplicate ids are always rejected"; build_index, accepted or refused, changes no pool and not the registry *)
+Theorem C12_refused_add_residue : forall h ty ks refs,
+  exists pre post, ks = pre ++ post /\ fst (dadd h ty refs ks) = refs ++ pre.
+Proof. exact dadd_residue. Qed.
+Print Assumptions C12_refused_add_residue.
+
+Theorem C12_index_changes_no_pool : forall st,
+  st_heap (fst (hstep st HIndex)) = st_heap st /\ st_reg (fst (hstep st HIndex)) = st_reg st.
+Proof. exact index_changes_no_pool. Qed.
+Print Assumptions C12_index_changes_no_pool.
+
 (* remove_by_id removes exactly the delegation with that id *)
 Theorem C12_remove_by_id : forall lc st id,
   ds_items (dcontent (fst (dstep lc st (DRemove id)))) = filter (fun d => negb (str_eqb (d_id d) id)) (ds_items (dcontent st)).
 Proof. exact remove_by_id_spec. Qed.
 Print Assumptions C12_remove_by_id.
+
+(* ------------------------------------------------------------------------------------------------ *)
+(* text level and decode side (Model/Deleg12T.v over Base/Json.v: json.dumps / json.loads)              *)
+(* ------------------------------------------------------------------------------------------------ *)
+(* on every document the encoder can write, the decoder on raw JSON values IS the typed decoder of the theorems above *)
+Theorem C12_text_value_agree : forall lc ty doc, from_json_value lc ty (json_of_doc doc) = from_json lc ty doc.
+Proof. exact text_value_agree. Qed.
+Print Assumptions C12_text_value_agree.
+
+Theorem C12_details_value_agree : forall lc ty dd, xobj_of_json lc ty (json_of_ddict dd) = obj_of_dict lc ty dd.
+Proof. exact xobj_of_ddict. Qed.
+Print Assumptions C12_details_value_agree.
+
+(* encode to TEXT, decode the text: the same Delegations (jwfb: the domain of the JSON text model, i.e. no lone
+   surrogate code points in the strings and no repeated key) *)
+Theorem C12_text_roundtrip : forall lc ds, ds_wf lc ds = true ->
+  exists doc, to_json ds = Ok doc /\ to_json_text ds = Ok (jprint (json_of_doc doc)) /\
+              (jwfb (json_of_doc doc) = true ->
+               from_json_text lc (ds_type ds) (Some (jprint (json_of_doc doc))) = Ok (Some ds)).
+Proof. exact text_roundtrip. Qed.
+Print Assumptions C12_text_roundtrip.
+
+(* accepted language, the outer layers: None, '', "None" give no Delegations, "{}" the empty set; a top level or an
+   entry that is not an object is refused (AttributeError), details that are not an object too (TypeError) *)
+Theorem C12_decode_special_inputs : forall lc ty,
+  from_json_text lc ty None = Ok None /\ from_json_text lc ty (Some []) = Ok None /\
+  from_json_text lc ty (Some neo4j_none) = Ok None /\ from_json_text lc ty (Some (S"{}")) = Ok (Some (mkDs ty [])).
+Proof. exact special_inputs. Qed.
+Print Assumptions C12_decode_special_inputs.
+
+Theorem C12_decode_rejects_non_objects : forall lc ty,
+  (forall v, (forall m, v <> JObj m) -> from_json_value lc ty v = Err e_attribute) /\
+  (forall id v, (forall m, v <> JObj m) -> xentry_of_json lc ty id v = Err e_attribute) /\
+  (forall v, (forall m, v <> JObj m) -> xobj_of_json lc ty v = Err EType).
+Proof. exact decode_rejects_non_objects. Qed.
+Print Assumptions C12_decode_rejects_non_objects.
+
+(* decode closure: whatever TEXT is accepted (foreign key order, duplicate and unknown keys, any kinds), the result
+   satisfies the API invariants ... *)
+Theorem C12_decode_closure : forall lc ty t d, from_json_text lc ty t = Ok (Some d) ->
+  ds_type d = ty /\ ds_inv d /\ Forall d_inv (ds_items d).
+Proof. exact decode_closure_text. Qed.
+Print Assumptions C12_decode_closure.
+
+(* ... its details are constructor-built objects when the JSON object has no null value ... *)
+Theorem C12_decoded_details_ok : forall lc ty v x, xobj_of_json lc ty v = Ok x -> no_null_values v = true ->
+  det_ok lc x = true.
+Proof. exact decoded_details_ok. Qed.
+Print Assumptions C12_decoded_details_ok.
+
+(* ... and then decode (encode d') = d' for the decoded d', and encode . decode . encode = encode.
+   FULL STATEMENT (false): without the hypothesis on the details -- C12_decode_null_capacity_refuted *)
+Theorem C12_decode_encode_decoded_partial : forall lc ty t d doc, from_json_text lc ty t = Ok (Some d) ->
+  Forall (fun x => forall y, d_details x = Some y -> det_ok lc y = true) (ds_items d) ->
+  to_json d = Ok doc ->
+  from_json lc ty doc = Ok d /\ (forall ds2, from_json lc ty doc = Ok ds2 -> to_json ds2 = Ok doc).
+Proof. exact decode_encode_decoded. Qed.
+Print Assumptions C12_decode_encode_decoded_partial.
+
+Theorem C12_decode_null_capacity_refuted :
+  exists d t2 d2, from_json_text accept_all TCap (Some null_cap_text) = Ok (Some d) /\
+                  to_json_text d = Ok t2 /\ from_json_text accept_all TCap (Some t2) = Ok (Some d2) /\ d2 <> d.
+Proof. exact decode_null_capacity_refuted. Qed.
+Print Assumptions C12_decode_null_capacity_refuted.
 
 (* ------------------------------------------------------------------------------------------------ *)
 (* non-vacuity: concrete instances of the hypotheses                                                 *)
@@ -390,4 +468,17 @@ Proof.
   split; [vm_compute; reflexivity|]. split; [vm_compute; reflexivity|].
   split; [vm_compute; intro H; discriminate H|].
   eexists. split; [vm_compute; reflexivity|]. split; vm_compute; reflexivity.
+Qed.
+
+(* the three-format container as text: inside the domain of the JSON text model, and the text decodes to it *)
+Example C12_nonvacuous_text :
+  exists doc, to_json ex_ds = Ok doc /\ jwfb (json_of_doc doc) = true /\
+              from_json_text accept_all TLab (Some (jprint (json_of_doc doc))) = Ok (Some ex_ds) /\
+              (* a foreign rendering of it: other key order, whitespace, an unknown key, a repeated id *)
+              from_json_text accept_all TLab
+                (Some (S" { ""del3"" : {""pool"": ""x""}, ""del1"": {""labels"": {""vlan_range"": ""1-100""}, ""note"": [1, null], ""pool_id"": ""_""}, ""del3"": {""pool"": ""pool1""} } "))
+              = Ok (Some (mkDs TLab [ mkD TLab (S"del3") FRef (Some (S"pool1")) None;
+                                      mkD TLab (S"del1") FSingle None (Some (ex_labs (S"1-100"))) ])).
+Proof.
+  eexists. split; [vm_compute; reflexivity|]. split; [vm_compute; reflexivity|]. split; vm_compute; reflexivity.
 Qed.
